@@ -2,4 +2,5 @@ import Petl.Val
 import Petl.Proto
 import Petl.Fields
 import Petl.Sort
+import Petl.Join
 import Petl.Ops
